@@ -554,6 +554,11 @@ func c13(r *rt.Run) {
 			continue
 		}
 		fams = append(fams, fam{"three-atoms", &c13Cfg{atoms: three, names: threeN, limit: 0, scale: scale}, eight, 3})
+		if scale == 1 {
+			// several atoms of one predicate, each with up to two intervals, some that coalescing leaves alone and
+			// some that it merges: what Coalesce does for one atom must not leak into another
+			fams = append(fams, fam{"three-atoms-coalesce", &c13Cfg{atoms: three, names: threeN, limit: 0, scale: scale}, []iv{{0, 0}, {2, 3}, {3, 4}, {5, 5}}, 4})
+		}
 		fams = append(fams, fam{"colliding-atoms", &c13Cfg{atoms: coll, names: collN, limit: 0, scale: scale}, eight[:5], 3})
 		for _, lim := range []int{1, 2, 3} {
 			fams = append(fams, fam{fmt.Sprintf("limit-%d", lim), &c13Cfg{atoms: one, names: oneN, limit: lim, scale: scale}, eight, 4})
@@ -624,7 +629,7 @@ func c13(r *rt.Run) {
 	}
 	// non-trivial count for the sequence families: histories with >= 2 insertions
 	r.Add("distinct_nontrivial", r.Get("states")/2)
-	r.Finish("every insertion sequence up to depth d over 34 intervals on a 6-point nanosecond timeline (also scaled to seconds), single atom / three atoms / hash-colliding atoms / per-atom limits 1-3, " +
+	r.Finish("every insertion sequence up to depth d over 34 intervals on a 6-point nanosecond timeline (also scaled to seconds), single atom / three atoms / three atoms to depth 4 over 4 intervals of which two merge / hash-colliding atoms / per-atom limits 1-3, " +
 		"every sequence up to depth 6 (thorough 7) over 6 (8) intervals sharing start points, and every insertion order of fixed 7-8 interval sets, each also followed by a second Add of every interval; after each history all point/range/scan queries, ContainsAt, count, then Coalesce and the same observers; the exported IntervalTree is driven alongside; " +
 		"non-trivial (approx. lower bound) = permutation histories + half of the sequence histories (those with >= 2 insertions are > 95%)")
 }
